@@ -234,6 +234,41 @@ def wide_tables(draw):
     return case
 
 
+ODD_LABELS = [
+    # not in Unicode NFC form next to their composed twins; compatibility singletons
+    'e\u0301', '\u00e9', 'a\u0303', '\u00e3', '\u212b', '\u00c5', '\u2126', '\u03a9', 'caf\u0065\u0301', 'caf\u00e9',
+    # one-character labels and their concatenations, case variants, case-folding traps
+    'A', 'B', 'AB', 'BA', 'Ab', 'a', 'b', 'ab', 'X', 'x', '.', '\u00df', 'SS', '\u0131', 'I', 'i',
+    # numeric-looking
+    '0', '1', '01', '1.0', '12', '2', '-1', '1e3',
+    # words of the serialisation formats and of Python
+    'lattice', 'objects', 'properties', 'context', "'lattice'", 'None', 'True', 'False', 'nan',
+    # format syntax look-alikes
+    '---', '====', '-+-', ':---:', '{}', '[]', '()', "it's", '"q"', '\\', 'a,b', 'a;b', 'a\tb',
+    # long and prefix-sharing
+    'o', 'o1', 'o10', 'o1 x', 'z' * 40, 'z' * 40 + 'y', 'z' * 39,
+]
+
+
+@st.composite
+def odd_tables(draw):
+    """Small tables whose labels come from ODD_LABELS: what a label *says* must not matter to a Context."""
+    case = draw(tables('small'))
+    n, m = len(case['o']), len(case['p'])
+    names = draw(st.lists(st.sampled_from(ODD_LABELS), min_size=n + m, max_size=n + m, unique=True))
+    family = draw(st.sampled_from(['', '', 'o', 'p']))
+    size = n if family == 'o' else m
+    if family and size >= 3:
+        # two one-character labels and their concatenation on the same axis ('A', 'B', 'AB')
+        x, y = draw(st.lists(st.sampled_from('ABabXx12'), min_size=2, max_size=2, unique=True))
+        trio = [x, y, x + y]
+        rest = [t for t in names if t not in trio]
+        names = (trio + rest[:n - 3] + rest[n - 3:n - 3 + m]) if family == 'o' else (rest[:n] + trio + rest[n:n + m - 3])
+    case = dict(case, o=names[:n], p=names[n:n + m])
+    case['f'] = 'odd-labels'
+    return case
+
+
 @st.composite
 def tall_tables(draw):
     """513-2100 objects x 3-7 properties (or transposed) whose columns are predicates over one integer per object -
